@@ -117,7 +117,11 @@ SPECS = {
   "outside": ["absence of collisions between independently seeded generators / other processes (probabilistic; the generator is seeded with time(0) only: see DESIGN.md)", "all 2^128 raw values of to_string"],
   "assumptions": ["S entries use the counter-based createId replacement (ids unique by construction); the K entry runs the real one"],
   "harnesses": [{"file": "C12_ids.cpp", "entries": [{"entry": "vh_c12_real_createid", "no_replace": ["createId"],
-        "require_natives": [{"symbol": "random_device", "msg": "createId() consults no entropy source besides time(): processes started in the same second generate identical ids", "loc": "src/util/util.cpp createId"}]}, {"entry": "vh_c12_stable"}]}]},
+        "require_natives": [{"symbol": "random_device", "msg": "createId() consults no entropy source besides time(): processes started in the same second generate identical ids", "loc": "src/util/util.cpp createId"}]},
+        {"entry": "vh_c12_entropy", "label": "vh_c12_entropy.draw0", "no_replace": ["createId"], "fix": {"entropy": 0}, "distinct_trace": "id"},
+        {"entry": "vh_c12_entropy", "label": "vh_c12_entropy.draw1", "no_replace": ["createId"], "fix": {"entropy": 1}, "distinct_trace": "id"},
+        {"entry": "vh_c12_entropy", "label": "vh_c12_entropy.draw2", "no_replace": ["createId"], "fix": {"entropy": 65536}, "distinct_trace": "id"},
+        {"entry": "vh_c12_stable"}]}]},
  "C09": {
   "explanation": "Full stack on the HDF5 model, which counts every mutation of a file and enforces the access intent: a library-produced file is opened ReadOnly, read through every getter, each of 40 mutating API calls is attempted, the file is closed - the mutation counter must never move and every call must throw; ReadWrite preserves the observation; Overwrite yields an empty valid file; absent path / plain HDF5 file are refused. Header defects (format, version, id) are decided in C10.",
   "bounds": {"mutating_calls": 40, "file": "harness/world.hpp", "modes": 3},
